@@ -23,6 +23,7 @@ Fixpoint val_same (a b : val) {struct a} : bool :=
   | VList x, VList y => list_same x y
   | VTuple x, VTuple y => list_same x y
   | VEnum x, VEnum y => String.eqb x y
+  | VObj c x, VObj d y => String.eqb c d && list_same x y
   | _, _ => false
   end.
 
@@ -57,7 +58,10 @@ Definition check_case (c : case) : Z :=
   match c with
   | Sem sha f args expected =>
       match build genv fuel_default asts (ext_of (hextable sha)) f with   (* = fenv_all, by PyAst.build_chain *)
-      | Some sem => if R_same (sem args) expected then 0 else 1
+      | Some sem => match sem args with
+                    | Exc Unmodelled => 4          (* the semantics refuses to describe this call: outside the fragment, tallied *)
+                    | r => if R_same r expected then 0 else 1
+                    end
       | None => 1
       end
   end.
